@@ -27,10 +27,10 @@ def queries(tier, kfs):
             qs.append(Query(qid + '.kf', 'router.cpp', 'c05.c', ud, dict(hd, NAN_ONLY=1), unwind=unwind, bounds=bounds, timeout=timeout,
                             expect='finding', kf=KF, kf_marker='CLASS degenerate-sum', diff=0))
 
-    prof = [(3, 0, 0b101, None, 1, 1), (3, 1, 0, None, 1, 1), (4, 0, 0b1001, None, 1, 1), (4, 1, 0b0001, 0b0100, 0, 1), (4, 0, 0b1000, None, 2, 1),
+    prof = [(3, 0, 0b101, None, 1, 1), (3, 1, 0, None, 1, 1), (4, 0, 0b1001, None, 1, 1), (4, 1, 0b0001, 0b0100, 0, 1),
             (3, 1, 0b001, None, 1, 2), (4, 0, 0b1001, None, 0, 2), (4, 1, 0b0001, None, 1, 20)]
     if not quick:
-        prof += [(5, 0, 0b10001, None, 1, 1), (5, 1, 0, 0b00100, 1, 1), (5, 0, 0b00001, None, 2, 1), (4, 1, 0, None, 2, 2), (6, 0, 0b100001, None, 1, 1)]
+        prof += [(4, 0, 0b1000, None, 2, 1), (5, 0, 0b10001, None, 1, 1), (5, 1, 0, 0b00100, 1, 1), (5, 0, 0b00001, None, 2, 1), (4, 1, 0, None, 2, 2), (6, 0, 0b100001, None, 1, 1)]
     for (n, looped, bl, mk, pexp, rounds) in prof:
         hd = dict(N=n, D=2, GRID=0, BLMASK=bl, USE_MASK=0 if mk is None else 1, SPACING='3.0', PEXP=pexp, ROUNDS=min(rounds, 2))
         if rounds == 20:
